@@ -90,7 +90,7 @@ impl Token for SnapTokenClaims {
         self.pssid.to_string()
     }
     fn exp_time(&self) -> SystemTime {
-        UNIX_EPOCH + Duration::from_secs(self.exp)
+        crate::exp_to_system_time(self.exp)
     }
     fn required_claims() -> Vec<&'static str> {
         vec!["exp", "pssid"]
